@@ -1,6 +1,6 @@
-//! C01: not implemented yet.
+//! C01: the implementation side is shared with C05 (see c05.rs); `lib/props/c01.py` drives it.
 use crate::util::Args;
-pub fn main(_a: &Args) {
-    eprintln!("c01: not implemented");
-    std::process::exit(2);
+
+pub fn main(a: &Args) {
+    crate::c05::main(a)
 }
